@@ -129,6 +129,9 @@ def coerce(sv, ty, classes=None):
         if sv.t is not None and sv.t.get_id() in _LITERALS:
             # a list display: rebuild it with the wider element type
             return SV(ty, _SeqLit(_LITERALS[sv.t.get_id()][1]).build(ty, classes))
+    if isinstance(ty, TSeq) and isinstance(s, TTuple):
+        # a tuple display used where a variable-length sequence is declared
+        return SV(ty, _SeqLit(list(sv.t)).build(ty, classes))
     if isinstance(ty, TMap) and isinstance(s, TMap) and s.k is TBottom:
         return SV(ty, empty_map(ty))
     if isinstance(ty, TUnion):
